@@ -10,6 +10,7 @@ import (
 	"net/http"
 	"reflect"
 	"strings"
+	"sync/atomic"
 
 	"github.com/getkin/kin-openapi/openapi3"
 	"github.com/getkin/kin-openapi/openapi3filter"
@@ -56,6 +57,8 @@ func NewShared() *Shared {
 }
 
 // Op is one call on the shared state; it returns a verdict string that must not depend on what other threads do.
+var encoderSeq atomic.Int64
+
 type Op struct {
 	Name string
 	Run  func(s *Shared, between func()) string
@@ -119,17 +122,34 @@ func FreshStructType(n int) reflect.Type {
 
 // Ops is the alphabet. Generation ops take the type from Shared via closure argument n set by the harness.
 var Ops = map[string]Op{
-	"GET-valid":     {"GET-valid", func(s *Shared, b func()) string { return routeAndValidate(s, s.Gorilla, "GET", "http://h.example/r?q=abc1", "", b) }},
-	"GET-invalid":   {"GET-invalid", func(s *Shared, b func()) string { return routeAndValidate(s, s.Gorilla, "GET", "http://h.example/r?q=ABC", "", b) }},
-	"POST-valid":    {"POST-valid", func(s *Shared, b func()) string { return routeAndValidate(s, s.Gorilla, "POST", "http://h.example/r", `{"name":"abc","tags":["x","y"]}`, b) }},
-	"POST-invalid":  {"POST-invalid", func(s *Shared, b func()) string { return routeAndValidate(s, s.Gorilla, "POST", "http://h.example/r", `{"name":"ABC","tags":["x","x"]}`, b) }},
-	"POST-legacy":   {"POST-legacy", func(s *Shared, b func()) string { return routeAndValidate(s, s.Legacy, "POST", "/r", `{"name":"abc"}`, b) }},
-	"VisitJSON":     {"VisitJSON", func(s *Shared, b func()) string { return "visit " + verdict(s.Schema.VisitJSON(map[string]any{"name": "abc", "tags": []any{"x", "x"}})) }},
-	"VisitJSON-ok":  {"VisitJSON-ok", func(s *Shared, b func()) string { return "visit " + verdict(s.Schema.VisitJSON(map[string]any{"name": "abc", "tags": []any{"x"}})) }},
+	"GET-valid": {"GET-valid", func(s *Shared, b func()) string {
+		return routeAndValidate(s, s.Gorilla, "GET", "http://h.example/r?q=abc1", "", b)
+	}},
+	"GET-invalid": {"GET-invalid", func(s *Shared, b func()) string {
+		return routeAndValidate(s, s.Gorilla, "GET", "http://h.example/r?q=ABC", "", b)
+	}},
+	"POST-valid": {"POST-valid", func(s *Shared, b func()) string {
+		return routeAndValidate(s, s.Gorilla, "POST", "http://h.example/r", `{"name":"abc","tags":["x","y"]}`, b)
+	}},
+	"POST-invalid": {"POST-invalid", func(s *Shared, b func()) string {
+		return routeAndValidate(s, s.Gorilla, "POST", "http://h.example/r", `{"name":"ABC","tags":["x","x"]}`, b)
+	}},
+	"POST-legacy": {"POST-legacy", func(s *Shared, b func()) string {
+		return routeAndValidate(s, s.Legacy, "POST", "/r", `{"name":"abc"}`, b)
+	}},
+	"VisitJSON": {"VisitJSON", func(s *Shared, b func()) string {
+		return "visit " + verdict(s.Schema.VisitJSON(map[string]any{"name": "abc", "tags": []any{"x", "x"}}))
+	}},
+	"VisitJSON-ok": {"VisitJSON-ok", func(s *Shared, b func()) string {
+		return "visit " + verdict(s.Schema.VisitJSON(map[string]any{"name": "abc", "tags": []any{"x"}}))
+	}},
 	"RegisterEncoder": {"RegisterEncoder", func(s *Shared, b func()) string {
-		openapi3filter.RegisterBodyEncoder("application/x-verif", func(body any) ([]byte, error) { return []byte("x"), nil })
-		enc := openapi3filter.RegisteredBodyEncoder("application/x-verif")
-		openapi3filter.UnregisterBodyEncoder("application/x-verif")
+		// every invocation registers its own content type: what one invocation observes is then independent of the others
+		// (two invocations on one key would legitimately see each other's unregistration)
+		ct := fmt.Sprintf("application/x-verif-%d", encoderSeq.Add(1))
+		openapi3filter.RegisterBodyEncoder(ct, func(body any) ([]byte, error) { return []byte("x"), nil })
+		enc := openapi3filter.RegisteredBodyEncoder(ct)
+		openapi3filter.UnregisterBodyEncoder(ct)
 		return fmt.Sprint("registered=", enc != nil)
 	}},
 }
